@@ -1464,6 +1464,12 @@ class Interp:
         # --- ranges over ground scalars / field-less enum constants (derived PartialOrd = discriminant order)
         if name.startswith("std::ops::RangeInclusive::<") and name.endswith(">::new") and len(args) == 2:
             return self._multi(path, frame, t, [(("agg", "adt:std::ops::RangeInclusive", None, (args[0], args[1])), path)], depth)
+        if name.startswith("std::ops::Range") and name.endswith("::is_empty") and len(args) == 1:
+            rg = self._deref_all(path, args[0])
+            if rg[0] == "agg" and rg[1] in ("adt:std::ops::Range", "adt:std::ops::RangeInclusive") and len(rg[3]) >= 2:
+                # start..end is empty unless start < end (start <= end for ..=)
+                op_ = "Ge" if rg[1].endswith("::Range") else "Gt"
+                return self._multi(path, frame, t, [(self.binop(path, op_, rg[3][0], rg[3][1], 8), path)], depth)
         if name.startswith("std::ops::Range") and "::contains" in name and len(args) == 2:
             rg = self._deref_all(path, args[0])
             x = self._deref_all(path, args[1])
@@ -1570,10 +1576,32 @@ class Interp:
                     path.store[tmp] = e
                     e = ("ref", (tmp, ()), False)
                 return self._multi(path, frame, t, [(("citer", (e,)), path)], depth)
+        # --- [T; N]::map with known elements: the closure runs per element, in order
+        if shortn == "map" and "core::array::<impl [T; N]>::map" in name and len(args) == 2:
+            arr_ = self._deref_all(path, args[0])
+            if arr_[0] == "agg" and arr_[1] == "array" and len(arr_[3]) <= 16:
+                def gen_amap():
+                    states = [(path, ())]
+                    for e_ in arr_[3]:
+                        nxt = []
+                        for p_, acc_ in states:
+                            res_ = self._call_closure_value(p_, frame, t, args[1], [e_], depth, "array-map")
+                            if res_ is None:
+                                yield from self._opaque(p_, frame, t, name, args, depth, havoc=True)
+                                return
+                            for o_ in res_:
+                                if o_.kind == "return":
+                                    nxt.append((o_.path, acc_ + (o_.value,)))
+                                else:
+                                    yield o_
+                        states = nxt
+                    for p_, acc_ in states:
+                        yield from self.cont(frame, t, p_, ("agg", "array", None, acc_), depth)
+                return gen_amap()
         if name.startswith("std::ops::RangeInclusive::<") and shortn == "new" and len(args) == 2:
             return self._multi(path, frame, t, [(("agg", "adt:std::ops::RangeInclusive", 0, (args[0], args[1], INT(0, 8))), path)], depth)
         if args and "Iterator" in (t["f"].get("def") or name) and shortn in (
-                "filter", "map", "fold", "any", "all", "find", "position", "for_each", "sum", "rev", "chain", "count", "copied", "cloned"):
+                "filter", "map", "fold", "any", "all", "find", "position", "for_each", "sum", "rev", "chain", "count", "copied", "cloned", "enumerate"):
             # a range with constant bounds used as an iterator chain: its elements are known
             rg = self._deref_all(path, args[0])
             if rg[0] == "agg" and rg[1] in ("adt:std::ops::Range", "adt:std::ops::RangeInclusive") and len(rg[3]) >= 2 \
@@ -1592,6 +1620,8 @@ class Interp:
                 return self._multi(path, frame, t, [(("citer", tuple(self._deref_all(path, e, 1) if e[0] == "ref" else e for e in it[1])), path)], depth)
             if shortn in ("rev",):
                 return self._multi(path, frame, t, [(("citer", it[1][::-1]), path)], depth)
+            if shortn == "enumerate" and len(args) == 1:
+                return self._multi(path, frame, t, [(("citer", tuple(("agg", "tuple", None, (INT(i_, 64), e_)) for i_, e_ in enumerate(it[1]))), path)], depth)
             if shortn == "chain" and len(args) == 2:
                 o_ = self._deref_all(path, args[1])
                 other = None
@@ -1780,6 +1810,32 @@ class Interp:
                 op = "Shl" if meth.endswith("shl") else "Shr"
                 cnt = self.binop(path, "BitAnd", b, INT(bits - 1, 32), 32)
                 return self._multi(path, frame, t, [(self.binop(path, op, a, cnt, bits, signed), path)], depth)
+            if meth in ("div_ceil", "next_multiple_of", "checked_next_multiple_of") and not signed and is_int(b) and b[1] > 0:
+                # ceil(a / b) = a / b + (a % b != 0); the multiple of b is that times b (which may overflow)
+                q = self.binop(path, "Div", a, b, bits, False)
+                r_ = self.binop(path, "Ne", self.binop(path, "Rem", a, b, bits, False), INT(0, bits), 8)
+                dc = self.binop(path, "Add", q, ("cast", r_, 8, False, bits), bits, False)
+                if meth == "div_ceil":
+                    return self._multi(path, frame, t, [(dc, path)], depth)
+                prod = self.binop(path, "Mul", dc, b, bits, False)
+                ov = self.binop(path, "MulOvf", dc, b, 8, False)
+                d_ = self.decide(path, ov)
+                if meth == "next_multiple_of":
+                    if d_ is None:
+                        path.events.append(("assert", "Overflow", "Mul", {"a": dc, "b": b}, F.site_str(frame.body, t["sp"]),
+                                            frame.body["path"], ov, len(path.conds), ""))
+                    return self._multi(path, frame, t, [(prod, path)], depth)
+                outs = []
+                if d_ != 1:
+                    p_ok = path.copy() if d_ is None else path
+                    if d_ is None:
+                        self.assume_cond(p_ok, ov, 0)
+                    outs.append((SOME(prod), p_ok))
+                if d_ != 0:
+                    if d_ is None:
+                        self.assume_cond(path, ov, 1)
+                    outs.append((NONE, path))
+                return self._multi(path, frame, t, outs, depth)
             if meth in ("wrapping_div", "wrapping_rem"):
                 op = "Div" if meth.endswith("div") else "Rem"
                 path.events.append(("divop", op, a, b, bits, signed))
